@@ -319,7 +319,11 @@ func (v *Verifier) Discharge(work string, tmo int, par int, depth int) []*Result
 				}
 				n++
 				go func(sp solverSpec) {
-					a, out, sec := runSolver(ctx, sp, files[i], tmo)
+					tm := tmo
+					if o.Goal == nil && tm > 4 {
+						tm = 4
+					}
+					a, out, sec := runSolver(ctx, sp, files[i], tm)
 					ch <- ans{a, out, sp.name, sec}
 				}(sp)
 				if nlFiles[i] != "" && sp.name != "z3-4.8.12" {
